@@ -34,7 +34,7 @@ STUBBED_NAMES = hashmodel.STUBBED_NAMES
 ASSUMPTIONS = ["representation invariant of interaction trees assumed by tree.*: equal signature => equal function and subtree; a loaded path is in the resolved references or kept earlier in traversal order; kept paths do not overlap", "export.*: rendering (pydot -> graphviz) runs untraced; ideal-hash model; clock stub"]
 OUTSIDE = ["trees deeper than 3 levels or with more than 2 calls per function", "the rendered image (only the dot text is parsed back)"]
 FUNCTIONS_ENCODED = ["dds._plotting._structure", "dds._plotting.build_graph", "dds._plotting.draw_graph", "dds._api._eval_new_ctx (export hook)"]
-BOUNDS = {"quick": {"tree": "root + 2 calls + 1..2 calls below each (<= 7 nodes); every combination of kept flags x named-argument flags of the calls that have an earlier sibling; shared-signature (same path / other path) and load flags in separate queries", "export": ["T1", "T3", "T5", "T6", "T7", "T8", "T9"]}}
+BOUNDS = {"quick": {"tree": "root + 2 calls + 1..2 calls below each (<= 7 nodes); every combination of kept flags x named-argument flags of the calls that have an earlier sibling; shared-signature (same path / other path) and load flags in separate queries", "export": ["T1", "T3", "T4", "T5", "T6", "T7", "T8", "T9"]}}
 BOUNDS["thorough"] = BOUNDS["quick"]
 LAST_DETAIL = [""]
 
@@ -185,6 +185,11 @@ def tree_impl(a):
         if not c1.kept or share:
             return True
         g3.loads.append(c1.path)
+    if bit(loads, 3):
+        # the root itself loads a path kept two levels below it (already a transitive dependency)
+        if not root.kept or not g1.kept:
+            return True
+        root.loads.append(g1.path)
     try:
         g = plotting._structure(root.fis(), dict(refs))
     except Exception as e:
@@ -276,12 +281,12 @@ def queries(tier):
     qs = []
     # one call below each child: kept flags of the 5 nodes (bits 0,1,2,3,5 -> enumerated as 64 values, unused bit pinned by the harness)
     qs.append({"id": "tree.one.args-share", "fn": "tree", "sel": {"two": 0, "kmax": 64, "amax": 1, "smax": 2}, "timeout": 900})
-    qs.append({"id": "tree.one.loads", "fn": "tree", "sel": {"two": 0, "kmax": 64, "lmax": 7}, "timeout": 900})
+    qs.append({"id": "tree.one.loads", "fn": "tree", "sel": {"two": 0, "kmax": 64, "lmax": 15}, "timeout": 900})
     # two calls below each child: 7 kept flags, partitioned by the flags of root and c1
     for kb in range(4):
         qs.append({"id": "tree.two.args.k%d" % kb, "fn": "tree", "sel": {"two": 1, "kmax": 32, "kscale": 4, "kbase": kb, "amax": 7}, "timeout": 1200})
     qs.append({"id": "tree.two.share", "fn": "tree", "sel": {"two": 1, "kmax": 128, "amax": 1, "smax": 2}, "timeout": 1200})
-    for tn, entry, nargs in (("T1", None, False), ("T3", ["tq.m1", "root"], True), ("T5", None, False), ("T6", None, False), ("T7", None, False), ("T8", None, False), ("T9", ["tq.m1", "root_a"], False), ("T9", ["tq.m1", "root_d"], False)):
+    for tn, entry, nargs in (("T1", None, False), ("T3", ["tq.m1", "root"], True), ("T4", ["tq.m1", "root"], True), ("T5", None, False), ("T6", None, False), ("T7", None, False), ("T8", None, False), ("T9", ["tq.m1", "root_a"], False), ("T9", ["tq.m1", "root_d"], False)):
         qs.append({"id": "export.%s%s" % (tn, ("." + entry[1]) if entry else ""), "fn": "export", "sel": {"template": tn, "entry": entry, "nargs": nargs}, "timeout": 400})
     return qs
 
